@@ -212,7 +212,9 @@ bool OSSLECDH::deriveKey(SymmetricKey **ppSymmetricKey, PublicKey* publicKey, Pr
 
 	// Derive the secret
 	ByteString secret, derivedSecret;
-	int size = ((OSSLECPublicKey *)publicKey)->getOrderLength();
+	// The secret is the x-coordinate of a point and has the length of a field
+	// element, which is not the length of the group order on every curve
+	int size = (EC_GROUP_get_degree(EC_KEY_get0_group(priv)) + 7) / 8;
 	secret.wipe(size);
 	derivedSecret.wipe(size);
 	int keySize = ECDH_compute_key(&derivedSecret[0], derivedSecret.size(), EC_KEY_get0_public_key(pub), priv, NULL);
